@@ -43,10 +43,21 @@ func absAll(l []string) []string {
 	return out
 }
 
+// stageSink collects the stage hooks fired by the call being recorded (single-goroutine drivers only)
+var stageSink []string
+
+func recordStages() {
+	if hooksAvailable {
+		setHook(func(fn, stage string) { stageSink = append(stageSink, stage) })
+	}
+}
+
 func eventOf(o Obs, e string, a []string) Event {
+	st := append([]string{}, stageSink...)
+	stageSink = stageSink[:0]
 	ev := Event{Fn: o.Fn, E: abstractOther(e), A: absAll(a), Sat: o.Sat, Err: o.Err, OK: o.OK,
 		Bad: absAll(o.Invalid), Out: absAll(o.Out), OutNil: o.OutNil, Panic: o.Panic != "", Mut: o.Mutated,
-		Off: -1, Stages: []string{}, RawE: e, RawA: a}
+		Off: -1, Stages: st, RawE: e, RawA: a}
 	if o.Err {
 		ev.Off, ev.Lex = errOffset(o.ErrText)
 	}
@@ -417,6 +428,8 @@ func cmdDrive(args []string) int {
 	_ = fs.Parse(args)
 
 	g := newGen(*seed)
+	recordStages()
+	defer setHook(nil)
 	f, err := os.Create(*out)
 	if err != nil {
 		fmt.Fprintln(os.Stderr, err)
